@@ -766,6 +766,330 @@ def demoServed : Bool :=
 /-- non-vacuity of `C30_responder_frames_chunked` -/
 example : demoServed = true := by decide +kernel
 
+/-! ## the responder without chunking: Content-Length and until-close framing -/
+
+def sumLen (ps : List Bytes) : Nat := (ps.map List.length).sum
+
+theorem flatten_length_sumLen (ps : List Bytes) : ps.flatten.length = sumLen ps := by
+  simp [sumLen, List.length_flatten]
+
+/-- not chunked, head written: a piece goes out as it is -/
+theorem write_plain_headed (date : Str) (r : Responder) (msg : Bytes) (hs : r.started = true) (hh : r.headed = true)
+    (hc : r.chunked = false) (hne : msg ≠ []) :
+    (∀ L, r.length = some L → r.size + msg.length ≤ L →
+        r.write date msg = .ok ({ r with size := r.size + msg.length }, [msg]))
+    ∧ (r.length = none → r.write date msg = .ok (r, [msg])) := by
+  have hm : msg.isEmpty = false := by cases msg <;> simp_all
+  constructor
+  · intro L hl hle
+    unfold Responder.write
+    have : ¬ (r.size + msg.length > L) := by omega
+    simp [hs, hh, hc, hl, this, hm]
+  · intro hl
+    unfold Responder.write
+    simp [hs, hh, hc, hl, hm]
+
+theorem write_empty_headed (date : Str) (r : Responder) (hs : r.started = true) (hh : r.headed = true)
+    (hc : r.chunked = false) (hl : r.length = none ∨ ∃ L, r.length = some L ∧ r.size ≤ L) :
+    ∃ r', r.write date [] = .ok (r', []) := by
+  unfold Responder.write
+  rcases hl with hl | ⟨L, hl, hle⟩
+  · simp [hs, hh, hc, hl]
+  · have : ¬ (r.size > L) := by omega
+    simp [hs, hh, hc, hl, this]
+
+/-- head written, not chunked, length `L` declared, `sz` bytes written so far and the remaining pieces make up exactly
+the rest: they go out unchanged and the response ends with the last one -/
+theorem run_length (date : Str) (st : Option (Str × List (Str × Str))) (L : Nat) (ps : List Bytes) :
+    ∀ (fuel : Nat) (r : Responder) (acc : Bytes), r.started = true → r.headed = true → r.chunked = false →
+      r.length = some L → r.size + sumLen ps = L → r.ended = false → ps.length + 1 ≤ fuel → (∀ p ∈ ps, p ≠ []) →
+      ∃ r', Responder.run date fuel r ⟨st, ps.map AppItem.yield⟩ true acc = .ok (r', acc ++ ps.flatten) := by
+  induction ps with
+  | nil =>
+    intro fuel r acc hs hh hc hl hsz he hf _
+    cases fuel with
+    | zero => omega
+    | succ f =>
+      obtain ⟨r', hw⟩ := write_empty_headed date r hs hh hc (Or.inr ⟨L, hl, by simp [sumLen] at hsz; omega⟩)
+      refine ⟨{ r' with ended := true }, ?_⟩
+      have hsvc : r.service date ⟨st, []⟩ true = .ok ({ r' with ended := true }, ⟨st, []⟩, true, []) := by
+        simp [Responder.service, he, hw]
+      rw [Responder.run]
+      simp only [he, Bool.false_eq_true, if_false, List.map_nil, hsvc]
+      cases f <;> simp [Responder.run]
+  | cons p ps ih =>
+    intro fuel r acc hs hh hc hl hsz he hf hne
+    cases fuel with
+    | zero => omega
+    | succ f =>
+      have hpne : p ≠ [] := hne p (by simp)
+      have hp : p.isEmpty = false := by cases p <;> simp_all
+      have hsz' : r.size + p.length + sumLen ps = L := by simp [sumLen] at hsz ⊢; omega
+      have hw := (write_plain_headed date r p hs hh hc hpne).1 L hl (by omega)
+      by_cases hps : ps = []
+      · subst hps
+        have hfull : r.size + p.length ≥ L := by simp [sumLen] at hsz'; omega
+        have hsvc : r.service date ⟨st, [p].map AppItem.yield⟩ true
+            = .ok ({ r with size := r.size + p.length, ended := true }, ⟨st, []⟩, true, [p]) := by
+          simp [Responder.service, he, hp, hw, hl, hfull]
+        refine ⟨{ r with size := r.size + p.length, ended := true }, ?_⟩
+        rw [Responder.run]
+        simp only [he, Bool.false_eq_true, if_false, hsvc]
+        cases f <;> simp [Responder.run]
+      · have hpos : sumLen ps > 0 := by
+          cases ps with
+          | nil => exact absurd rfl hps
+          | cons q qs =>
+            have := hne q (by simp)
+            have : q.length > 0 := by cases q <;> simp_all
+            simp [sumLen]; omega
+        have hnot : ¬ (r.size + p.length ≥ L) := by omega
+        have hsvc : r.service date ⟨st, (p :: ps).map AppItem.yield⟩ true
+            = .ok ({ r with size := r.size + p.length, ended := false }, ⟨st, ps.map AppItem.yield⟩, true, [p]) := by
+          simp [Responder.service, he, hp, hw, hl, hnot]
+        obtain ⟨r', hr'⟩ := ih f { r with size := r.size + p.length, ended := false } (acc ++ p) hs hh hc hl hsz' rfl
+          (by simp at hf; omega) (fun q hq => hne q (by simp [hq]))
+        refine ⟨r', ?_⟩
+        rw [Responder.run]
+        simp only [he, Bool.false_eq_true, if_false, hsvc]
+        simp only [List.foldl_cons, List.foldl_nil, List.nil_append]
+        rw [hr']
+        simp [List.append_assoc]
+
+
+/-- head written, not chunked, no length: the pieces go out as they are, nothing marks the end -/
+theorem run_streamed (date : Str) (st : Option (Str × List (Str × Str))) (ps : List Bytes) :
+    ∀ (fuel : Nat) (r : Responder) (acc : Bytes), r.started = true → r.headed = true → r.chunked = false →
+      r.length = none → r.ended = false → ps.length + 1 ≤ fuel → (∀ p ∈ ps, p ≠ []) →
+      ∃ r', Responder.run date fuel r ⟨st, ps.map AppItem.yield⟩ true acc = .ok (r', acc ++ ps.flatten) := by
+  induction ps with
+  | nil =>
+    intro fuel r acc hs hh hc hl he hf _
+    cases fuel with
+    | zero => omega
+    | succ f =>
+      obtain ⟨r', hw⟩ := write_empty_headed date r hs hh hc (Or.inl hl)
+      refine ⟨{ r' with ended := true }, ?_⟩
+      have hsvc : r.service date ⟨st, []⟩ true = .ok ({ r' with ended := true }, ⟨st, []⟩, true, []) := by
+        simp [Responder.service, he, hw]
+      rw [Responder.run]
+      simp only [he, Bool.false_eq_true, if_false, List.map_nil, hsvc]
+      cases f <;> simp [Responder.run]
+  | cons p ps ih =>
+    intro fuel r acc hs hh hc hl he hf hne
+    cases fuel with
+    | zero => omega
+    | succ f =>
+      have hpne : p ≠ [] := hne p (by simp)
+      have hp : p.isEmpty = false := by cases p <;> simp_all
+      have hw := (write_plain_headed date r p hs hh hc hpne).2 hl
+      have hsvc : r.service date ⟨st, (p :: ps).map AppItem.yield⟩ true
+          = .ok ({ r with ended := false }, ⟨st, ps.map AppItem.yield⟩, true, [p]) := by
+        simp [Responder.service, he, hp, hw, hl]
+      obtain ⟨r', hr'⟩ := ih f { r with ended := false } (acc ++ p) hs hh hc hl rfl
+        (by simp at hf; omega) (fun q hq => hne q (by simp [hq]))
+      refine ⟨r', ?_⟩
+      rw [Responder.run]
+      simp only [he, Bool.false_eq_true, if_false, hsvc]
+      simp only [List.foldl_cons, List.foldl_nil, List.nil_append]
+      rw [hr']
+      simp [List.append_assoc]
+
+/-- **the responder without chunking**: an application that calls `start_response(status, headers)` and yields the
+non-empty `pieces`, served to a responder that does not chunk (Content-Length given — then the pieces make up
+exactly that length — or an HTTP/1.0 peer): everything queued until the response has ended is the head followed by the
+pieces as they are. -/
+theorem run_plain_app (date status : Str) (hdrs : List (Str × Str)) (pieces : List Bytes) (code : Nat) (words : List Str)
+    (r0 r1 : Responder)
+    (hst : r1.status = joinStr [' '] (natStr code :: words)) (hw : ∀ w ∈ words, Visible w)
+    (hne : ∀ p ∈ pieces, p ≠ [])
+    (h0 : r0.ended = false) (hstart : r0.start status hdrs false = .ok r1)
+    (h1 : r1.started = true ∧ r1.headed = false ∧ r1.ended = false ∧ r1.chunked = false ∧ r1.size = 0)
+    (hlen : r1.length = none ∨ r1.length = some (sumLen pieces))
+    (hwc : r1.willChunk date = false)
+    (hg : ∀ kv ∈ r1.finalHeaders date, GoodName kv.1 ∧ GoodValue kv.2) :
+    ∃ r', Responder.run date (pieces.length + 3) r0 ⟨some (status, hdrs), pieces.map AppItem.yield⟩ false []
+      = .ok (r', responseHead code words (r1.finalHeaders date) ++ pieces.flatten) := by
+  have hb := build_head date r1 code words hst hw hg
+  obtain ⟨hs1, hh1, he1, hc1, hz1⟩ := h1
+  generalize hr2 : ({ r1 with headers := r1.finalHeaders date, chunked := r1.chunked || r1.willChunk date, headed := true } : Responder) = r2
+  have h2 : r2.started = true ∧ r2.headed = true ∧ r2.chunked = false ∧ r2.length = r1.length ∧ r2.ended = false ∧ r2.size = 0 := by
+    subst hr2; exact ⟨hs1, rfl, by simp [hwc, hc1], rfl, he1, hz1⟩
+  obtain ⟨h2s, h2h, h2c, h2l, h2e, h2z⟩ := h2
+  cases pieces with
+  | nil =>
+    -- the generator ends at once: `write(b'')` sends the head
+    have hwrite : ∃ r3, r1.write date [] = .ok (r3, [responseHead code words (r1.finalHeaders date)]) := by
+      unfold Responder.write
+      rcases hlen with hl | hl
+      · simp [hs1, hh1, hb, hl, hwc, hc1]
+      · simp [hs1, hh1, hb, hl, hwc, hc1, sumLen, hz1]
+    obtain ⟨r3, hw3⟩ := hwrite
+    have hsvc : r0.service date ⟨some (status, hdrs), []⟩ false
+        = .ok ({ r3 with ended := true }, ⟨some (status, hdrs), []⟩, true,
+               [responseHead code words (r1.finalHeaders date)]) := by
+      unfold Responder.service
+      simp only [h0, Bool.false_eq_true, if_false, hstart, List.isEmpty_nil, if_true, hw3, List.drop_nil, List.nil_append]
+    refine ⟨{ r3 with ended := true }, ?_⟩
+    rw [Responder.run]
+    simp only [h0, Bool.false_eq_true, if_false, List.map_nil, hsvc]
+    simp [Responder.run]
+  | cons p ps =>
+    have hpne : p ≠ [] := hne p (by simp)
+    have hp : p.isEmpty = false := by cases p <;> simp_all
+    rcases hlen with hl | hl
+    · -- no length: streamed
+      have hwrite : r1.write date p = .ok (r2, [responseHead code words (r1.finalHeaders date), p]) := by
+        unfold Responder.write
+        subst hr2
+        simp [hs1, hh1, hb, hl, hwc, hc1, hp]
+      have hsvc : r0.service date ⟨some (status, hdrs), (p :: ps).map AppItem.yield⟩ false
+          = .ok ({ r2 with ended := false }, ⟨some (status, hdrs), ps.map AppItem.yield⟩, true,
+                 [responseHead code words (r1.finalHeaders date), p]) := by
+        unfold Responder.service
+        simp only [h0, Bool.false_eq_true, if_false, hstart, List.map_cons, hp, hwrite, h2l, hl, h2e, List.drop_succ_cons,
+          List.drop_zero, Bool.or_false]
+      obtain ⟨r', hr'⟩ := run_streamed date (some (status, hdrs)) ps (ps.length + 3) { r2 with ended := false }
+        (responseHead code words (r1.finalHeaders date) ++ p) h2s h2h h2c (by rw [h2l, hl]) rfl (by omega)
+        (fun q hq => hne q (by simp [hq]))
+      refine ⟨r', ?_⟩
+      show Responder.run date (ps.length + 3 + 1) r0 _ false [] = _
+      rw [Responder.run]
+      simp only [h0, Bool.false_eq_true, if_false, hsvc]
+      simp only [List.foldl_cons, List.foldl_nil, List.nil_append]
+      rw [hr']
+      simp [List.append_assoc]
+    · -- Content-Length = the total of the pieces
+      have hL : sumLen (p :: ps) = p.length + sumLen ps := by simp [sumLen]
+      have hwrite : r1.write date p
+          = .ok ({ r2 with size := p.length }, [responseHead code words (r1.finalHeaders date), p]) := by
+        unfold Responder.write
+        subst hr2
+        have : ¬ (p.length > p.length + sumLen ps) := by omega
+        simp [hs1, hh1, hb, hl, hL, hwc, hc1, hp, hz1, this]
+      by_cases hps : ps = []
+      · subst hps
+        have hsvc : r0.service date ⟨some (status, hdrs), [p].map AppItem.yield⟩ false
+            = .ok ({ r2 with size := p.length, ended := true }, ⟨some (status, hdrs), []⟩, true,
+                   [responseHead code words (r1.finalHeaders date), p]) := by
+          unfold Responder.service
+          simp [h0, hstart, hp, hwrite, h2l, hl, sumLen]
+        refine ⟨{ r2 with size := p.length, ended := true }, ?_⟩
+        rw [Responder.run]
+        simp only [h0, Bool.false_eq_true, if_false, hsvc]
+        simp [Responder.run]
+      · have hpos : sumLen ps > 0 := by
+          cases ps with
+          | nil => exact absurd rfl hps
+          | cons q qs =>
+            have := hne q (by simp)
+            have : q.length > 0 := by cases q <;> simp_all
+            simp [sumLen]; omega
+        have hnot : ¬ (p.length ≥ p.length + sumLen ps) := by omega
+        have hsvc : r0.service date ⟨some (status, hdrs), (p :: ps).map AppItem.yield⟩ false
+            = .ok ({ r2 with size := p.length, ended := false }, ⟨some (status, hdrs), ps.map AppItem.yield⟩, true,
+                   [responseHead code words (r1.finalHeaders date), p]) := by
+          unfold Responder.service
+          simp [h0, hstart, hp, hwrite, h2l, hl, hL, hnot, h2e]
+        obtain ⟨r', hr'⟩ := run_length date (some (status, hdrs)) (p.length + sumLen ps) ps (ps.length + 3)
+          { r2 with size := p.length, ended := false }
+          (responseHead code words (r1.finalHeaders date) ++ p) h2s h2h h2c (by rw [← hL, ← hl]; exact h2l) rfl rfl (by omega)
+          (fun q hq => hne q (by simp [hq]))
+        refine ⟨r', ?_⟩
+        show Responder.run date (ps.length + 3 + 1) r0 _ false [] = _
+        rw [Responder.run]
+        simp only [h0, Bool.false_eq_true, if_false, hsvc]
+        simp only [List.foldl_cons, List.foldl_nil, List.nil_append]
+        rw [hr']
+        simp [List.append_assoc]
+
+
+/-- **C30, responder frames (Content-Length)**: a WSGI application that calls `start_response(status, headers)` with a
+Content-Length and yields non-empty pieces making up exactly that many bytes, served by `Responder.service` until the
+response has ended and read by the client's `Respondent`: same status, reason, headers (as completed by the responder:
+Server, Date) and the concatenated pieces as body; what follows on the connection is left untouched. -/
+theorem C30_responder_frames_length (method date status : Str) (closed : Bool) (hdrs : List (Str × Str)) (pieces : List Bytes)
+    (code : Nat) (words : List Str) (rest : Bytes) (r0 r1 : Responder)
+    (hst : r1.status = joinStr [' '] (natStr code :: words)) (hw : ∀ w ∈ words, Visible w)
+    (hc : 200 ≤ code ∧ code ≤ 999) (hbodied : code ≠ 204 ∧ code ≠ 304) (hmethod : method ≠ "HEAD".toList)
+    (hlen : (statusText code words).length ≤ MAX_LINE_SIZE)
+    (hp : ∀ p ∈ pieces, p ≠ [])
+    (h0 : r0.ended = false) (hstart : r0.start status hdrs false = .ok r1)
+    (h1 : r1.started = true ∧ r1.headed = false ∧ r1.ended = false ∧ r1.chunked = false ∧ r1.size = 0)
+    (hl : r1.length = some (sumLen pieces))
+    (hwc : r1.willChunk date = false)
+    (hgood : ∀ kv ∈ r1.finalHeaders date, GoodName kv.1 ∧ GoodValue kv.2 ∧ (headerLine kv.1 kv.2).length ≤ MAX_LINE_SIZE)
+    (hcount : (r1.finalHeaders date).length ≤ MAX_HEADERS)
+    (hte : odGet (dictOf (r1.finalHeaders date)) "transfer-encoding".toList = none)
+    (hcl : odGet (dictOf (r1.finalHeaders date)) "content-length".toList = some (natStr (sumLen pieces)))
+    (hev : isEventStream (dictOf (r1.finalHeaders date)) = false) :
+    ∃ r' wire, Responder.run date (pieces.length + 3) r0 ⟨some (status, hdrs), pieces.map AppItem.yield⟩ false [] = .ok (r', wire)
+      ∧ ∃ q, parseResponse method closed (wire ++ rest) = .done q rest
+          ∧ Parsed q code words (r1.finalHeaders date) pieces.flatten ∧ q.chunked = false := by
+  obtain ⟨r', hrun⟩ := run_plain_app date status hdrs pieces code words r0 r1 hst hw hp h0 hstart h1 (Or.inr hl) hwc
+    (fun kv h => ⟨(hgood kv h).1, (hgood kv h).2.1⟩)
+  refine ⟨r', _, hrun, ?_⟩
+  obtain ⟨q, hq, hparsed, hch⟩ := C30_response_wire_length method closed code words (r1.finalHeaders date) pieces.flatten rest
+    hw hc hbodied hmethod hlen hgood hcount hte (by rw [hcl, flatten_length_sumLen]) hev
+  exact ⟨q, by simpa [List.append_assoc] using hq, hparsed, hch⟩
+
+/-- **C30, responder frames (until close)**: the same application without a Content-Length, served to a peer for which
+the responder does not chunk (HTTP/1.0): the head and the pieces as they are; the client, once the connection has been
+closed, reads the same status, reason, headers and the concatenated pieces as body — and before the close it keeps
+waiting (`need`): this response cannot be followed by another one on the connection. -/
+theorem C30_responder_frames_until_close (method date status : Str) (hdrs : List (Str × Str)) (pieces : List Bytes)
+    (code : Nat) (words : List Str) (r0 r1 : Responder)
+    (hst : r1.status = joinStr [' '] (natStr code :: words)) (hw : ∀ w ∈ words, Visible w)
+    (hc : 200 ≤ code ∧ code ≤ 999) (hbodied : code ≠ 204 ∧ code ≠ 304) (hmethod : method ≠ "HEAD".toList)
+    (hlen : (statusText code words).length ≤ MAX_LINE_SIZE)
+    (hp : ∀ p ∈ pieces, p ≠ [])
+    (h0 : r0.ended = false) (hstart : r0.start status hdrs false = .ok r1)
+    (h1 : r1.started = true ∧ r1.headed = false ∧ r1.ended = false ∧ r1.chunked = false ∧ r1.size = 0)
+    (hl : r1.length = none)
+    (hwc : r1.willChunk date = false)
+    (hgood : ∀ kv ∈ r1.finalHeaders date, GoodName kv.1 ∧ GoodValue kv.2 ∧ (headerLine kv.1 kv.2).length ≤ MAX_LINE_SIZE)
+    (hcount : (r1.finalHeaders date).length ≤ MAX_HEADERS)
+    (hte : odGet (dictOf (r1.finalHeaders date)) "transfer-encoding".toList = none)
+    (hcl : odGet (dictOf (r1.finalHeaders date)) "content-length".toList = none)
+    (hev : isEventStream (dictOf (r1.finalHeaders date)) = false) :
+    ∃ r' wire, Responder.run date (pieces.length + 3) r0 ⟨some (status, hdrs), pieces.map AppItem.yield⟩ false [] = .ok (r', wire)
+      ∧ (∃ q, parseResponse method true wire = .done q []
+          ∧ Parsed q code words (r1.finalHeaders date) pieces.flatten ∧ q.chunked = false)
+      ∧ parseResponse method false wire = .need := by
+  obtain ⟨r', hrun⟩ := run_plain_app date status hdrs pieces code words r0 r1 hst hw hp h0 hstart h1 (Or.inl hl) hwc
+    (fun kv h => ⟨(hgood kv h).1, (hgood kv h).2.1⟩)
+  refine ⟨r', _, hrun, ?_⟩
+  exact C30_response_wire_until_close method code words (r1.finalHeaders date) pieces.flatten hw hc hbodied hmethod hlen hgood
+    hcount hte hcl hev
+
+/-- non-vacuity: concrete applications in the two modes, served and read back -/
+def demoServedLength : Bool :=
+  match Responder.run "Fri, 02 Jan 2026 03:04:05 GMT".toList 5 { chunkable := true }
+      ⟨some ("200 OK".toList, [("Content-Length".toList, "3".toList)]), [.yield [104, 105], .yield [33]]⟩ false [] with
+  | .ok (_, wire) =>
+    (match parseResponse "GET".toList false (wire ++ [72]) with
+     | .done q rest => decide (q.status = 200 ∧ q.body = [104, 105, 33] ∧ rest = [72] ∧ q.chunked = false)
+     | _ => false)
+  | _ => false
+
+def demoServedUntilClose : Bool :=
+  match Responder.run "Fri, 02 Jan 2026 03:04:05 GMT".toList 5 { chunkable := false }
+      ⟨some ("200 OK".toList, [("X-A".toList, "v".toList)]), [.yield [104, 105], .yield [33]]⟩ false [] with
+  | .ok (_, wire) =>
+    (match parseResponse "GET".toList true wire, parseResponse "GET".toList false wire with
+     | .done q rest, .need => decide (q.status = 200 ∧ q.body = [104, 105, 33] ∧ rest = [] ∧ q.chunked = false)
+     | _, _ => false)
+  | _ => false
+
+example : demoServedLength = true ∧ demoServedUntilClose = true := by decide +kernel
+
+/-- the hypotheses of the two theorems are what `start_response` establishes: with a Content-Length header the
+responder stops chunking and records the length; without one (and a peer that cannot take chunks) nothing is recorded -/
+example : (match ({ chunkable := true } : Responder).start "200 OK".toList [("Content-Length".toList, "3".toList)] false with
+    | .ok r1 => decide (r1.length = some (sumLen [[104, 105], [33]]) ∧ r1.willChunk "d".toList = false ∧ r1.chunked = false
+        ∧ r1.size = 0 ∧ r1.started = true ∧ r1.headed = false)
+    | .error _ => false) = true := by decide +kernel
+
 /-! ## the builder writes that wire format -/
 
 theorem encodeAscii_ok {s : Str} {b : Bytes} (h : encodeAscii s = .ok b) : b = s.map Char.toNat := by
